@@ -272,7 +272,12 @@ func (e *Exec) concretize(t *Term, n int) int {
 		return int(v)
 	}
 	if n > 64 {
-		panic(abort{"symbolic index over a large range"})
+		// the term's own range may be small (a count of matching bytes, a masked value)
+		if _, hi := e.tt.urange(t); hi < 64 {
+			n = int(hi) + 1
+		} else {
+			panic(abort{"symbolic index over a large range"})
+		}
 	}
 	bits := t.Sort.Bits()
 	d := e.decide(n+1, func(i int) *Term {
@@ -1005,6 +1010,32 @@ func (e *Exec) strEq(a, b []*Term) *Term {
 	return r
 }
 
+// strValEq: equality of strings. Two pricing texts are rendered canonically from their terms by the native
+// side, so they are equal exactly when their terms are equal (their placeholder bytes say nothing).
+func (e *Exec) strValEq(a, b StrVal) *Term {
+	pa, oka := a.Att.(*PricingAtt)
+	pb, okb := b.Att.(*PricingAtt)
+	if !oka || !okb {
+		return e.strEq(a.B, b.B)
+	}
+	if pa == pb {
+		return e.tt.Bool(true)
+	}
+	if len(pa.ByTime) != len(pb.ByTime) || len(pa.ByVol) != len(pb.ByVol) {
+		return e.tt.Bool(false)
+	}
+	r := e.tt.Eq(pa.Price, pb.Price)
+	for i := range pa.ByTime {
+		x, y := pa.ByTime[i], pb.ByTime[i]
+		r = e.tt.And(r, e.tt.And(e.tt.And(e.tt.Eq(x.Start.NS, y.Start.NS), e.tt.Eq(x.End.NS, y.End.NS)), e.tt.Eq(x.Disc, y.Disc)))
+	}
+	for i := range pa.ByVol {
+		x, y := pa.ByVol[i], pb.ByVol[i]
+		r = e.tt.And(r, e.tt.And(e.tt.Eq(x.Vol, y.Vol), e.tt.Eq(x.Disc, y.Disc)))
+	}
+	return r
+}
+
 // lexLess builds the term "a < b" for byte strings (lexicographic).
 func (e *Exec) lexLess(a, b []*Term) *Term {
 	n := len(a)
@@ -1112,9 +1143,9 @@ func (e *Exec) binop(op token.Token, x, y Value, xt types.Type) Value {
 		case token.ADD:
 			return StrVal{B: append(append([]*Term{}, a.B...), b.B...)}
 		case token.EQL:
-			return e.strEq(a.B, b.B)
+			return e.strValEq(a, b)
 		case token.NEQ:
-			return e.tt.Not(e.strEq(a.B, b.B))
+			return e.tt.Not(e.strValEq(a, b))
 		case token.LSS:
 			return e.lexLess(a.B, b.B)
 		case token.GTR:
@@ -1208,7 +1239,7 @@ func (e *Exec) valueEq(a, b Value) *Term {
 	case *Term:
 		return e.tt.Eq(x, b.(*Term))
 	case StrVal:
-		return e.strEq(x.B, b.(StrVal).B)
+		return e.strValEq(x, b.(StrVal))
 	case PtrVal:
 		y := b.(PtrVal)
 		return e.tt.Bool(x.Root == y.Root && fmt.Sprint(x.Path) == fmt.Sprint(y.Path))
@@ -1322,7 +1353,7 @@ func (e *Exec) builtin(b *ssa.Builtin, cc *ssa.CallCommon, args []Value) Value {
 func (e *Exec) keyEq(a, b Value) *Term {
 	switch x := a.(type) {
 	case StrVal:
-		return e.strEq(x.B, b.(StrVal).B)
+		return e.strValEq(x, b.(StrVal))
 	case *Term:
 		return e.tt.Eq(x, b.(*Term))
 	case IfaceVal:
